@@ -616,10 +616,12 @@ func (l *IPFSLog) Join(otherLog iface.IPFSLog, size int) (iface.IPFSLog, error) 
 	// Only entries this log holds (it had them already or just accepted them) can
 	// become heads: heads of the other log that were not merged, e.g. entries
 	// carrying another log id, must not enter the log through its heads.
+	// The entry held by this log (validated when it was accepted) is used, not
+	// the other log's object under the same hash, which was never checked.
 	acceptedOtherHeads := entry.NewOrderedMap()
 	for _, h := range otherHeads.Slice() {
-		if _, ok := l.Entries.Get(h.GetHash().String()); ok {
-			acceptedOtherHeads.Set(h.GetHash().String(), h)
+		if own, ok := l.Entries.Get(h.GetHash().String()); ok {
+			acceptedOtherHeads.Set(h.GetHash().String(), own)
 		}
 	}
 
